@@ -493,6 +493,7 @@ type SpecFunc struct {
 	Line    int
 	File    string
 	Trigger bool // emit quantified definition with trigger instead of fuel unfolding
+	Inline  bool // expanded at every call site (bounded quantifiers with literal ranges are unrolled)
 }
 
 type Param struct{ Name, Type string }
@@ -537,6 +538,18 @@ type Lemma struct {
 	Uses    []string
 }
 
+// DataInv: an invariant of every non-nil *T that reaches a function as a
+// parameter (assumed at entry, required at calls of repo functions).
+type DataInv struct {
+	Type string // Go type text of the pointee, e.g. ShortcutsTable
+	Var  string
+	Src  string
+	E    Expr
+	Pkg  string
+	Line int
+	File string
+}
+
 type GlobalInv struct {
 	Src  string
 	E    Expr
@@ -552,6 +565,7 @@ type Contracts struct {
 	FuncOrd []string
 	Lemmas  []*Lemma
 	GInvs   []*GlobalInv
+	DInvs   []*DataInv
 	Assumed []string // human-readable list of assumed/trusted items
 	Congs   []*Congruence
 }
@@ -568,7 +582,7 @@ type Congruence struct {
 }
 
 var clauseKeywords = []string{"congruence", "spec", "func", "extern", "requires", "ensures", "assigns", "loop", "lemma",
-	"use", "props", "inline", "trusted", "pure", "functional", "nosafety", "globalinv", "reveal", "hint", "opt"}
+	"use", "props", "inline", "trusted", "pure", "functional", "nosafety", "globalinv", "datainv", "reveal", "hint", "opt"}
 
 func startsClause(s string) (string, bool) {
 	for _, k := range clauseKeywords {
@@ -689,6 +703,19 @@ func (c *Contracts) ParseContractText(text, file, pkgPath string) error {
 				return errf("congruence <spec> <slice param> <length param> [props…]")
 			}
 			c.Congs = append(c.Congs, &Congruence{Fn: f[0], SliceParam: f[1], LenParam: f[2], Props: f[3:], Line: rc.line, File: file})
+			cur, curLemma = nil, nil
+		case "datainv":
+			// datainv T x := expr
+			k := strings.Index(rest, ":=")
+			f := strings.Fields(rest[:max(k, 0)])
+			if k < 0 || len(f) != 2 {
+				return errf("datainv <Type> <var> := <expr>")
+			}
+			e, err := parseExpr(strings.TrimSpace(rest[k+2:]))
+			if err != nil {
+				return errf("%v", err)
+			}
+			c.DInvs = append(c.DInvs, &DataInv{Type: f[0], Var: f[1], Src: rest, E: e, Pkg: pkgPath, Line: rc.line, File: file})
 			cur, curLemma = nil, nil
 		case "globalinv":
 			e, err := parseExpr(rest)
@@ -826,6 +853,10 @@ func parseSpecDecl(s string) (*SpecFunc, error) {
 		case strings.HasPrefix(s, "trigger "):
 			sf.Trigger = true
 			s = strings.TrimSpace(s[8:])
+			continue
+		case strings.HasPrefix(s, "inline "):
+			sf.Inline = true
+			s = strings.TrimSpace(s[7:])
 			continue
 		}
 		break
